@@ -501,14 +501,26 @@ def inject(rng, p, kind):
             orig[1] += 1
 
     # non-ASCII on the fault line: leading block comment (moves the column) and/or trailing comment
-    where = rng.below(4)
+    # where 4/5: the fault line starts with the END of a block comment opened on an earlier line
+    where = rng.below(6)
     line = rng.choice(["", "  ", "\t"])
+    opener = None
     if where in (1, 3):
-        line += block_comment(rng) + " "
+        line += block_comment(rng) + rng.choice([" ", "", "\t"])
+    elif where in (4, 5):
+        opener = [rng.choice(["", "    "]) + ";* " + nonascii(rng) + rng.choice([" disabled:", "", " ld 0x7f"])]
+        if rng.chance(0.4):
+            opener.append(rng.choice(["    ld 0x80 ", nonascii(rng), "  ; " + nonascii(rng), ""]))
+        line += rng.choice([nonascii(rng) + " ", "", "ld 1 "]) + "*;" + rng.choice([" ", "", "  "])
+    stmt_off = len(line.encode("utf-8"))
     line += stmt
-    if where in (2, 3):
+    if where in (2, 3, 5):
         line += " " + comment(rng, True)
     insert(pos, line)
+    if opener:
+        for o in reversed(opener):
+            insert(pos, o)
+        pos += len(opener)
     # non-ASCII before / after the fault line
     ctx = rng.below(4)
     if ctx in (1, 3):
@@ -530,10 +542,73 @@ def inject(rng, p, kind):
         if order_key(q, orig[0], orig[1]) > order_key(q, fname, pos):
             expect, other = other, (fname, pos)      # the later declaration is the duplicate
     return {"prog": q, "file": fname, "line": pos, "stmt": stmt, "kind": kind, "expect": expect, "other": other,
-            "on_line": ["none", "before", "after", "both"][where], "context": ["none", "before", "after", "both"][ctx],
+            "on_line": ["none", "before", "after", "both", "multiline_before", "multiline_both"][where],
+            "context": ["none", "before", "after", "both"][ctx], "stmt_range": (stmt_off, len(stmt.encode("utf-8"))),
             "open_ended": kind == "malformed_directive" and stmt in OPEN_ENDED, "situation": situation,
             "next_token": nxt, "continues": kind == "malformed_directive" and can_continue(stmt, nxt),
             "included": fname != q.entry}
+
+
+def gen_include_chain(rng):
+    """root -> f1 -> ... -> fD include chain (valid baseline) and a copy where the #include inside the file at depth d names a
+    file that does not exist.  Returns (baseline Prog, case dict); the error belongs on that #include line, at the file-name token."""
+    depth = rng.range(1, 4)
+    p_na = rng.choice([0.0, 0.5, 0.9])
+    names, dirs = ["main.asm"], [""]
+    for i in range(1, depth + 1):
+        d = dirs[-1] + (rng.choice(["lib/", "sub%d/" % i, "inc/"]) if rng.chance(0.5) else "")
+        dirs.append(d)
+        names.append(d + rng.choice(["a", "code", "tables", "defs"]) + "%d.asm" % i)
+    p = Prog()
+    p.eol = "\r\n" if rng.chance(0.15) else "\n"
+    p.final_eol = rng.chance(0.8)
+    p.order = list(names)
+    inc_line = {}
+    for i, n in enumerate(names):
+        lines = []
+        if rng.chance(p_na):
+            lines.append(comment(rng, True))
+        stm = []
+        for k in range(rng.range(1, 4)):
+            stm.append(rng.choice(["#d8 %d, %d" % (rng.range(0, 255), rng.range(0, 255)), "lbl_%d_%d:" % (i, k), "#d16 0x%04x" % rng.range(0, 65535),
+                                   '#d "%s"' % nonascii(rng), "K_%d_%d = %d" % (i, k, rng.range(0, 99))]))
+        at = rng.range(0, len(stm))
+        for k, t in enumerate(stm):
+            if k == at and i < depth:
+                inc_line[i] = len(lines)
+                lines.append(None)
+            lines.append(decorate(rng, t, p_na))
+        if at == len(stm) and i < depth:
+            inc_line[i] = len(lines)
+            lines.append(None)
+        if rng.chance(p_na):
+            lines.append(comment(rng, True))
+        p.files[n] = lines
+
+    def include_text(i, target):
+        rel = target[len(dirs[i]):]
+        lead = rng.choice(["", "  ", "\t"])
+        if rng.chance(p_na * 0.5):
+            lead += block_comment(rng) + " "
+        head = lead + "#include" + rng.choice([" ", "  ", "\t"])
+        tok = '"%s"' % rel
+        tail = (" " + comment(rng, True)) if rng.chance(p_na) else ""
+        return head + tok + tail, len(head.encode("utf-8")), len(tok.encode("utf-8"))
+    for i in range(depth):
+        p.files[names[i]][inc_line[i]] = include_text(i, names[i + 1])[0]
+    q = Prog()
+    q.files = {n: list(l) for n, l in p.files.items()}
+    q.order, q.entry, q.eol, q.final_eol = list(p.order), p.entry, p.eol, p.final_eol
+    d = rng.range(0, depth - 1)
+    missing = dirs[d] + rng.choice(["nosuch.asm", "missing/tables.asm", "donn\u00e9es.asm", "a%d.asm.bak" % d, "x/../gone.asm"])
+    text, off, ln = include_text(d, missing)
+    q.files[names[d]][inc_line[d]] = text
+    # the files below the broken link are no longer reached
+    case = {"prog": q, "file": names[d], "line": inc_line[d], "stmt": text.strip(), "kind": "malformed_directive",
+            "expect": (names[d], inc_line[d]), "other": None, "on_line": "before" if ";*" in text else "none", "context": "none",
+            "open_ended": False, "situation": "include_missing_at_depth_%d_of_%d" % (d, depth), "next_token": None, "continues": False,
+            "included": d > 0, "token": (off, ln), "include_depth": d}
+    return p, case
 
 
 # ----------------------------------------------------------------------------- stream (iii): corpus mutants
